@@ -2,6 +2,7 @@ import Pyunicorn.Lemmas.CrossNsiWhole
 import Pyunicorn.Lemmas.CrossR4
 import Pyunicorn.Lemmas.CrossBetw
 import Pyunicorn.Lemmas.CrossCCN
+import Pyunicorn.Model.CrossISRN
 import Mathlib.Algebra.Order.BigOperators.Group.List
 import Pyunicorn.Generated.ArithC11
 import Pyunicorn.Generated.StructC11
@@ -2951,5 +2952,172 @@ theorem ccn_wrappers_as_modelled :
   decide +kernel
 
 end Round5
+
+/-! ### `InterSystemRecurrenceNetwork`: the network assembled from recurrence matrices
+
+`Pyunicorn.CrossISRN` (`Model/CrossISRN.lean`) is the model of
+`timeseries/inter_system_recurrence_network.py:166-174, 226-282, 344-394`; tied to the code by
+the request `isrn` of the driver and by `isrn_as_modelled`. -/
+
+section ISRN
+open Pyunicorn.CrossCCN Pyunicorn.CrossISRN
+
+/-- **`flat[::N + 1]` of an `N × N` array is its diagonal**: the flat position `i·N + j`
+(`i, j < N`) is a multiple of `N + 1` exactly when `i = j` -/
+theorem flat_stride_is_diagonal (N i j : Nat) (hi : i < N) (hj : j < N) :
+    (i * N + j) % (N + 1) = 0 ↔ i = j := by
+  by_cases hle : i ≤ j
+  · have e : i * N + j = (j - i) + (N + 1) * i := by
+      rw [Nat.mul_comm (N + 1) i, Nat.mul_succ]
+      omega
+    rw [e, Nat.add_mul_mod_self_left, Nat.mod_eq_of_lt (by omega)]
+    omega
+  · obtain ⟨k, rfl⟩ : ∃ k, i = k + 1 := ⟨i - 1, by omega⟩
+    have e : (k + 1) * N + j = (N + 1 - (k + 1 - j)) + (N + 1) * k := by
+      rw [Nat.succ_mul, Nat.mul_comm (N + 1) k, Nat.mul_succ]
+      omega
+    rw [e, Nat.add_mul_mod_self_left, Nat.mod_eq_of_lt (by omega)]
+    omega
+
+/-- entries of the adjacency matrix of an inter-system recurrence network: no self-loops, and off
+the diagonal the four blocks `R_x`, `CR_xy`, `CR_xyᵀ`, `R_y` -/
+theorem isrn_adjacency_entries (Rx Cxy Ry : Nat → Nat → Bool) (Nx N : Nat) (i j : Nat)
+    (hi : i < N) (hj : j < N) :
+    CrossISRN.adjacency Rx Cxy Ry Nx N i j
+      = (if i = j then false
+         else if i < Nx then (if j < Nx then Rx i j else Cxy i (j - Nx))
+         else (if j < Nx then Cxy j (i - Nx) else Ry (i - Nx) (j - Nx))) := by
+  unfold CrossISRN.adjacency zeroFlatStride isrm
+  simp only [flat_stride_is_diagonal N i j hi hj, hi, hj, and_self, if_true]
+
+/-- the network is loop-free (every node number, also out of range) -/
+theorem isrn_loop_free (Rx Cxy Ry : Nat → Nat → Bool) (Nx N : Nat) (a : Nat) :
+    CrossISRN.adjacency Rx Cxy Ry Nx N a a = false := by
+  by_cases h : a < N
+  · rw [isrn_adjacency_entries Rx Cxy Ry Nx N a a h h]
+    simp
+  · unfold CrossISRN.adjacency zeroFlatStride isrm
+    simp [h]
+
+/-- … and undirected whenever the two recurrence matrices are symmetric (the two off-diagonal
+blocks are transposes of each other by construction) -/
+theorem isrn_symm (Rx Cxy Ry : Nat → Nat → Bool) (hx : Symm Rx) (hy : Symm Ry) (Nx N : Nat) :
+    Symm (CrossISRN.adjacency Rx Cxy Ry Nx N) := by
+  intro a b
+  by_cases ha : a < N
+  · by_cases hb : b < N
+    · rw [isrn_adjacency_entries Rx Cxy Ry Nx N a b ha hb,
+        isrn_adjacency_entries Rx Cxy Ry Nx N b a hb ha]
+      by_cases hab : a = b
+      · subst hab; rfl
+      · have hba : ¬ b = a := fun h => hab h.symm
+        simp only [hab, hba, if_false]
+        by_cases h1 : a < Nx <;> by_cases h2 : b < Nx <;> simp [h1, h2, hx a b, hy (a - Nx) (b - Nx)]
+    · unfold CrossISRN.adjacency zeroFlatStride isrm
+      simp [hb]
+  · unfold CrossISRN.adjacency zeroFlatStride isrm
+    simp [ha]
+
+/-- **the cross block of the assembled network is the cross recurrence matrix**:
+`cross_adjacency(x, y)[i][j] = CR_xy[i, j]`, and inside `x` / `y` the recurrence matrices off the
+diagonal -/
+theorem isrn_blocks (Rx Cxy Ry : Nat → Nat → Bool) (Nx N : Nat) (h : Nx ≤ N) :
+    blockN (CrossISRN.adjacency Rx Cxy Ry Nx N) (nodes1 Nx) (nodes2 Nx N)
+        = (List.range Nx).map (fun i => (List.range (N - Nx)).map fun j => b2n (Cxy i j))
+    ∧ (∀ i j, i < Nx → j < Nx → i ≠ j → CrossISRN.adjacency Rx Cxy Ry Nx N i j = Rx i j)
+    ∧ (∀ i j, i < N - Nx → j < N - Nx → i ≠ j →
+        CrossISRN.adjacency Rx Cxy Ry Nx N (Nx + i) (Nx + j) = Ry i j) := by
+  refine ⟨?_, ?_, ?_⟩
+  · unfold blockN block nodes1 nodes2
+    apply List.map_congr_left
+    intro i hi
+    have hi' : i < Nx := List.mem_range.mp hi
+    rw [List.range'_eq_map_range, List.map_map]
+    apply List.map_congr_left
+    intro j hj
+    have hj' : j < N - Nx := List.mem_range.mp hj
+    simp only [Function.comp]
+    rw [isrn_adjacency_entries Rx Cxy Ry Nx N i (Nx + j) (by omega) (by omega)]
+    have h1 : ¬ i = Nx + j := by omega
+    have h2 : ¬ Nx + j < Nx := by omega
+    simp [h1, hi', h2]
+  · intro i j hi hj hij
+    rw [isrn_adjacency_entries Rx Cxy Ry Nx N i j (by omega) (by omega)]
+    simp [hij, hi, hj]
+  · intro i j hi hj hij
+    rw [isrn_adjacency_entries Rx Cxy Ry Nx N (Nx + i) (Nx + j) (by omega) (by omega)]
+    have h2 : ¬ Nx + i < Nx := by omega
+    have h3 : ¬ Nx + j < Nx := by omega
+    simp [h2, h3, hij]
+
+/-- **`cross_link_density(x, y)` of the assembled network is the cross recurrence rate**
+`float(CR.sum()) / (N_x · N_y)` of the cross recurrence plot -/
+theorem isrn_cross_recurrence_rate (Rx Cxy Ry : Nat → Nat → Bool) (Nx N : Nat) (h : Nx ≤ N) :
+    Cross.crossLinkDensity (CrossISRN.adjacency Rx Cxy Ry Nx N) (nodes1 Nx) (nodes2 Nx N)
+      = crossRecurrenceRate Cxy Nx (N - Nx) := by
+  unfold Cross.crossLinkDensity numberCrossLinks crossRecurrenceRate
+  rw [(isrn_blocks Rx Cxy Ry Nx N h).1, nodes1_length, nodes2_length]
+  simp only [rowSums, List.map_map, Function.comp_def]
+
+/-- **the links of an inter-system recurrence network** are the recurrences within `x`, within `y`
+and the cross recurrences: the hypotheses of `n_links_decomposition` (undirected, loop-free) are
+theorems for the assembled matrix -/
+theorem isrn_n_links (Rx Cxy Ry : Nat → Nat → Bool) (hx : Symm Rx) (hy : Symm Ry) (Nx N : Nat)
+    (h : Nx ≤ N) :
+    netNLinks false N (CrossISRN.adjacency Rx Cxy Ry Nx N)
+      = numberInternalLinks false (CrossISRN.adjacency Rx Cxy Ry Nx N) (nodes1 Nx)
+        + numberInternalLinks false (CrossISRN.adjacency Rx Cxy Ry Nx N) (nodes2 Nx N)
+        + ((List.range Nx).map fun i => ((List.range (N - Nx)).map fun j => b2n (Cxy i j)).sum).sum := by
+  rw [n_links_decomposition _ (isrn_symm Rx Cxy Ry hx hy Nx N) (isrn_loop_free Rx Cxy Ry Nx N) N _ _
+    (ccn_layers_perm Nx N h)]
+  congr 1
+  unfold numberCrossLinks
+  rw [(isrn_blocks Rx Cxy Ry Nx N h).1]
+  simp only [rowSums, List.map_map, Function.comp_def]
+
+example : blockN (CrossISRN.adjacency (fun _ _ => true) (fun i j => i == j) (fun _ _ => true) 2 5)
+    (List.range 5) (List.range 5)
+    = [[0, 1, 1, 0, 0], [1, 0, 0, 1, 0], [1, 0, 0, 1, 1], [0, 1, 1, 0, 1], [0, 0, 1, 1, 0]] := by
+  decide
+
+
+open Pyunicorn.Generated in
+/-- **about the regenerated source of `InterSystemRecurrenceNetwork`**: `N = N_x + N_y`; the matrix
+starts as zeros and receives `R_x`, `CR_xy`, `CR_xy.transpose()`, `R_y` in the four slices
+`[:N_x, :N_x]`, `[:N_x, N_x:N]`, `[N_x:N, :N_x]`, `[N_x:N, N_x:N]` (`isrm`); both setters remove
+the self-loops with `ISRM.flat[::self.N + 1] = 0` (`zeroFlatStride`, `flat_stride_is_diagonal`);
+the network is constructed undirected from that matrix; the four wrappers route
+`np.arange(N_x)` / `np.arange(N_x, N)` (`nodes1`, `nodes2`) in the orders `xy` / `yx`; the cross
+recurrence rate is `float(CR.sum()) / (N · M)` (`crossRecurrenceRate`). -/
+theorem isrn_as_modelled :
+    StructC11.isrnFacts = [
+  ("__init__.self.N_x", "self.x_embedded.shape[0]"),
+  ("__init__.self.N_y", "self.y_embedded.shape[0]"),
+  ("__init__.self.N", "self.N_x + self.N_y"),
+  ("__init__.InteractingNetworks.__init__", "self, adjacency=ISRM, directed=False, silence_level=self.silence_level"),
+  ("inter_system_recurrence_matrix.N", "self.N"),
+  ("inter_system_recurrence_matrix.N_x", "self.N_x"),
+  ("inter_system_recurrence_matrix.ISRM", "np.zeros((N, N))"),
+  ("inter_system_recurrence_matrix.ISRM[:N_x, :N_x]", "self.rp_x.recurrence_matrix()"),
+  ("inter_system_recurrence_matrix.ISRM[:N_x, N_x:N]", "self.crp_xy.recurrence_matrix()"),
+  ("inter_system_recurrence_matrix.ISRM[N_x:N, :N_x]", "self.crp_xy.recurrence_matrix().transpose()"),
+  ("inter_system_recurrence_matrix.ISRM[N_x:N, N_x:N]", "self.rp_y.recurrence_matrix()"),
+  ("inter_system_recurrence_matrix.return", "ISRM"),
+  ("internal_recurrence_rates.return", "(self.rp_x.recurrence_rate(), self.rp_y.recurrence_rate())"),
+  ("cross_recurrence_rate.return", "self.crp_xy.cross_recurrence_rate()"),
+  ("cross_global_clustering_xy.return", "self.cross_global_clustering(np.arange(self.N_x), np.arange(self.N_x, self.N))"),
+  ("cross_global_clustering_yx.return", "self.cross_global_clustering(np.arange(self.N_x, self.N), np.arange(self.N_x))"),
+  ("cross_transitivity_xy.return", "self.cross_transitivity(np.arange(self.N_x), np.arange(self.N_x, self.N))"),
+  ("cross_transitivity_yx.return", "self.cross_transitivity(np.arange(self.N_x, self.N), np.arange(self.N_x))"),
+  ("set_fixed_threshold.ISRM", "self.inter_system_recurrence_matrix()"),
+  ("set_fixed_threshold.ISRM.flat[::self.N + 1]", "0"),
+  ("set_fixed_threshold.return", "ISRM"),
+  ("set_fixed_recurrence_rate.ISRM", "self.inter_system_recurrence_matrix()"),
+  ("set_fixed_recurrence_rate.ISRM.flat[::self.N + 1]", "0"),
+  ("set_fixed_recurrence_rate.return", "ISRM"),
+  ("CrossRecurrencePlot.cross_recurrence_rate.return", "float(self.CR.sum()) / (self.N * self.M)")] := by
+  decide +kernel
+
+end ISRN
 
 end Pyunicorn.Cross
